@@ -313,6 +313,10 @@ def reference(spec, graph):
                 k3 = (it["sec"], ga, it["meta"].get("version", 1))
                 if k3 in applied and applied[k3][2] != li:
                     stats["overrides"] += 1
+                elif k3 in applied and applied[k3][2] == li and applied[k3][0] != tuple(it["params"]):
+                    # two matches of the *same* link write different parameters to the same atoms and version:
+                    # the statement only orders different links, so the outcome is not defined
+                    raise Unsupported("one link defines the same atoms twice with different parameters")
                 meta = {k: v for k, v in it["meta"].items()}
                 applied[k3] = (tuple(it["params"]), meta, li)
                 link_keys.add(k3)
@@ -321,6 +325,9 @@ def reference(spec, graph):
                 if idx[x] != idx[y]:
                     edges.add(frozenset((idx[x], idx[y])))
 
+    for rkey, members in res_atoms.items():
+        if all(g in removed for g in members):
+            raise Unsupported("links remove every atom of a residue")
     # ---- explicit links (by atom number of the final molecule): applied after all other links -----------------
     for ex in spec.get("explicit", []):
         ga = tuple(ex["atoms"])
